@@ -498,6 +498,8 @@ def run(ctx):
     shards = 16
     tasks = [{"seed": ctx.seed, "shard": i, "count": 12 if quick else 600} for i in range(shards)]
     ctx.map("checks.c12", "table_task", tasks, timeout=3000)
+    ctx.map("checks.c12", "table_task", [dict(t, shard=100 + t["shard"], count=max(4, t["count"] // 4)) for t in tasks[:4]], timeout=3000,
+            python_flags=("-O",))  # assertions off
     ctx.map("checks.c12", "real_task", [{"seed": ctx.seed, "shard": i} for i in range(12 if quick else 48)], timeout=3000)
     if ctx.counters.get("archived_topologies_checked", 0) < 50 or ctx.counters.get("tables_with_ccf_checked_against_the_data", 0) < 100:
         ctx.inconc("too few archived topologies / value comparisons")
